@@ -349,6 +349,17 @@ def run(ck: Check):
                         ' '.join(map(str, rows)), ' '.join(map(str, spec)),
                         ('perm', n, r_, loc))
 
+    # gen_swap_unitary: the matrix itself (column -> row of the single 1)
+    for r_ in range(2, 8):
+        S = np.asarray(PermutationMatrix.gen_swap_unitary(r_).numpy)
+        ok = (S.shape == (r_ * r_, r_ * r_)
+              and np.all((S == 0) | (S == 1))
+              and np.all(S.sum(0) == 1) and np.all(S.sum(1) == 1))
+        rows = [int(np.argmax(np.abs(S[:, c]))) for c in range(r_ * r_)]
+        add(f'genswap {r_}', ' '.join(map(str, rows)) if ok else 'not-0/1',
+            ' '.join(str((c % r_) * r_ + c // r_) for c in range(r_ * r_)),
+            ('genswap', r_))
+
     # ---------------------------------------------------------- run driver
     outs = ck.driver('graph', [c[0] for c in cases])
     if len(outs) != len(cases):
